@@ -543,16 +543,18 @@ func main() {
 	for _, bind := range []uint16{0, 60001} {
 		for _, bad := range []struct{ path, fate string }{{"udp", "silent"}, {"broadcast", "silent"}, {"tcp", "silent"}, {"tcp", "refused"}, {"tcp", "reset"}} {
 			for _, p := range paths {
-				calls := []call{
-					{op: "GetCardByID", args: argsFor("GetCardByID", 2), ctrl: 2, path: bad.path, delay: T / 10, client: 0, fate: bad.fate, thread: 1},
-					{op: "GetEvent", args: argsFor("GetEvent", 2), ctrl: 0, path: p, delay: 4 * T / 10, client: 0, thread: 1},
-					{op: "GetCardByID", args: argsFor("GetCardByID", 1), ctrl: 1, path: p, delay: 4 * T / 10, offset: T / 10, client: 0, thread: 2},
+				for _, off := range []time.Duration{0, T / 10} {
+					calls := []call{
+						{op: "GetCardByID", args: argsFor("GetCardByID", 2), ctrl: 2, path: bad.path, delay: T / 10, client: 0, fate: bad.fate, thread: 1},
+						{op: "GetEvent", args: argsFor("GetEvent", 2), ctrl: 0, path: p, delay: 4 * T / 10, client: 0, thread: 1},
+						{op: "GetCardByID", args: argsFor("GetCardByID", 1), ctrl: 1, path: p, delay: 4 * T / 10, offset: off, client: 0, thread: 2},
+					}
+					b := 2
+					if r.Thorough() {
+						b = 3
+					}
+					scenarios = append(scenarios, callScenario(fmt.Sprintf("failing-call/bind=%d/%s-%s/others=%s@%v", bind, bad.path, bad.fate, p, off), bind, calls, b, false))
 				}
-				b := 1
-				if r.Thorough() {
-					b = 2
-				}
-				scenarios = append(scenarios, callScenario(fmt.Sprintf("failing-call/bind=%d/%s-%s/others=%s", bind, bad.path, bad.fate, p), bind, calls, b, false))
 			}
 		}
 	}
